@@ -31,6 +31,14 @@ func init() {
 			r.Try(func() { ruleConstructorErrorPosition(w, r, "R15.10") })
 			r.Rule("R15.11", 2, "'circular' is classifiable for every cycle: the whole-graph check that produces the typed error starts a search from every node and follows every edge")
 			r.Try(func() { ruleSearchComplete(w, r, "R15.11") })
+			r.Rule("R15.12", 3, "a rejected registration leaves no partial state: no error return is reachable after a registry view was written, or every written view is undone")
+			r.Try(func() {
+				asRule(w, r, "R15.12", []string{"R17.4"}, func(sub *Report) { checkAtomicRejection(w, sub, resolveRegistry(w)) })
+			})
+			r.Rule("R15.13", 5, "the analysis record a constructor's error handling is read from is keyed by code pointer and type")
+			r.Try(func() { ruleFunctionIdentity(w, r, "R15.13") })
+			r.Rule("R15.14", 1, "repository error types are recognised with errors.As, never by a type assertion on an error value")
+			r.Try(func() { ruleNoErrorTypeAssertions(w, r, "R15.14") })
 		})
 	register("C16",
 		"Structural necessary conditions of the middleware protocol, decided per integration on the per-request function's control-flow graph and then compared across the five siblings: one CreateScope(request context) on the captured provider; creation error -> error handler, return; a close guarantee in force before any user callback (deferred Close; fiber: Locals + explicit Close + fasthttp lemma checked in the fasthttp source); scope.Context() attached before middlewares/next and flowing on; middlewares in slice order with that scope, error -> error handler, return, next unreachable; next exactly once on the normal path; Handle: recover only under cfg.PanicRecovery, scope from the request, matching error handler on each failure edge, method dominated by both successes and given the resolved controller. ISO: no mutable resolution state shared between requests (record confinement). NOT decided: status codes, behaviour of the frameworks beyond the lemma.",
@@ -56,6 +64,8 @@ func init() {
 			r.Try(func() { ruleNoInPlaceReuse(w, r, "R19.5") })
 			r.Rule("R19.6", 1, "the degree recomputation counts every edge")
 			r.Try(func() { ruleDegreeCountsEveryEdge(w, r, "R19.6") })
+			r.Rule("R19.7", 1, "the edge table and the nodes' own dependency lists describe the same edges")
+			r.Try(func() { ruleEdgesAgreeWithNodeLists(w, r, "R19.7") })
 			sub := NewReport(r.Prop, r.Tier, w)
 			sub.Rule("R09.1", 0, "")
 			sub.Rule("R09.1u", 0, "")
